@@ -440,6 +440,27 @@ func (s *Source) Read(buf []byte) (int, error) {
 		return 0, os.ErrDeadlineExceeded
 	case "zero":
 		return 0, nil
+	case "fatal-data":
+		// a failing read that still hands bytes back: the frame at the head of the queue (a stand-in if there is none)
+		// together with the error - the shape recvfrom-based sources really have; the error is the call's outcome
+		var f []byte
+		if len(s.queue) > 0 {
+			f = s.queue[0]
+			s.queue = s.queue[1:]
+			if len(s.qmeta) > 0 {
+				s.qmeta = s.qmeta[1:]
+			}
+		} else {
+			f = append(make([]byte, 14), 0x45, 0, 0, 20, 0, 0, 0, 0, 64, 253, 0, 0, 192, 0, 2, 1, 192, 0, 2, 2)
+		}
+		if len(f) > len(buf)+14 {
+			f = f[:len(buf)+14]
+		}
+		m := 0
+		if len(f) > 14 {
+			m = copy(buf, f[14:])
+		}
+		return m, fmt.Errorf("recvfrom: %w", ErrInjected)
 	}
 	vsched.Advance(n.EpsNs)
 	if s.deadline >= 0 && s.deadline <= vsched.Now()-n.EpsNs {
